@@ -37,17 +37,17 @@ TEXT = {
             'oracles run unchanged.', '6/C10'),
     'C11': ('Every argument size around k*batch (k=1..4, +-64 bytes, all six batch sizes) is enumerated, plus random sizes and shapes; a monitor '
             'compares the arguments every replica executes with the submitted ones, counts executions per replica and treats any exception escaping a '
-            'step as a violation.', '6/C11'),
+            'step as a violation. Random cases submit bursts between two ticks, cut transfers midway and have read-only nodes whose end of the connection goes away just before the leader sends (send() fails with EPIPE inside the loop over the pieces).', '6/C11'),
     'C13': ('Two real TcpConnection objects on simulated sockets; an adversary fragments the stream arbitrarily and rewrites frames in flight; the '
             'delivered sequence is compared with the sent one after every action, invalid frames must end in exactly one disconnect.', '6/C13'),
     'C14': ('The real TCPTransport/TcpServer/TcpConnection of 2-4 real nodes run on simulated sockets under virtual time through refused connects, '
             'RST, black holes, dropped flows (half-open on both sides), kills without FIN and restarts; every delivered message is attributed '
             '(claimed sender really sent it to this node, in order, and is a member), every pair must be connected on both sides within the bound '
-            'once the network is healthy, and probes on links of every age check that "connected" means one message gets through exactly once. Every third case has an outsider - a stranger nobody lists, a removed founding member that keeps running, a member added while down and removed before it ever connected - that must never be reported connected nor have a message attributed to it by a node that does not list it.', '6/C14'),
+            'once the network is healthy, and probes on links of every age check that "connected" means one message gets through exactly once. Every third case has an outsider - a stranger nobody lists, a removed founding member that keeps running, a member added while down and removed before it ever connected - that must never be reported connected nor have a message attributed to it by a node that does not list it. Half of the cases with a stable leader send one big frame from a follower to the leader over a slow link (its bytes trickle in for 1.3-2.2 connectionTimeouts): no side may report a disconnect while data keeps arriving. An exception escaping from the transport stack out of a tick is a violation.', '6/C14'),
     'C16': ('Real ReplLockManager clients (one per node) with their prolongation threads run cooperatively under the common virtual clock; '
             'after every step at most one client may consider a lock its own, late acquisitions must be reported as failed and not kept, '
             'a holder that stops prolonging must be displaceable after the auto-unlock time (bounded-progress script at the end of every run), '
-            'and the replicated lock table is compared with a reference written from the property statement (release by a non-holder, expiry).', '6/C16'),
+            'and the replicated lock table is compared with a reference written from the property statement (release by a non-holder, expiry). Two cases in three also use the blocking forms (sync=True) with a timeout that expires before the reply; requests delayed on their way are run against the lock table directly (up-to-date replica against a lagging one).', '6/C16'),
     'C17': ('Generated old/new programs with versioned replicated methods on the object and on consumers run in mixed clusters with version '
             'switches, compactions, restarts and replacement of old code; method ids are computed independently from the program description '
             'and every apply event of every node is compared with the triple that id denotes; executed versions are compared with the version '
@@ -58,15 +58,15 @@ TEXT = {
             'command\'s result, no foreign exception. Three-node cases destroy the leader process while calls are in flight or after all were answered.', '6/C19'),
     'C12': ('Commands that raise deterministically (user method and documented battery errors) are mixed into adversarial runs with restarts from '
             'the journal; a re-executed position, a stalled applied index (C05 stuck oracle), diverging digests (C01 oracle, model swallows the same '
-            'exception) or a wrong/duplicate callback (C02 oracle) is a violation.', '6/C12'),
+            'exception) or a wrong/duplicate callback (C02 oracle) is a violation. A node whose tick raises has not polled its sockets: it receives nothing until a tick completes, so a tick that raises for ever shows as a stalled node.', '6/C12'),
     'C08': ('Model equivalence after every operation plus exhaustive enumeration of kill points (before/after every storage primitive, torn record '
-            'stores) of each enumerated operation, reopened and judged by the post-crash oracle; thorough adds real SIGKILL.', '6/C08'),
+            'stores) of each enumerated operation, reopened and judged by the post-crash oracle; half of the sequences contain records that end exactly at, or one byte around, the end of the file; thorough adds real SIGKILL.', '6/C08'),
     'C15': ('Model-based testing of all public battery methods against the builtin containers, directly, across a serialize/deserialize round trip and '
             'through a replicated cluster with snapshot catch-up.', '6/C15'),
     'C18': ('Read-only nodes join/leave under adversarial schedules; they must never send vote messages nor change role, majorities are counted over voters '
-            'only (C04 oracle), they converge in the quiet phase and their submissions obey the C02 oracle.', '6/C18'),
+            'only (C04 oracle), they converge in the quiet phase (a read-only node whose ticks raise receives nothing, as on real sockets) and their submissions obey the C02 oracle; the step-down oracle of C20 runs too (read-only nodes answering heartbeats must not keep a cut-off leader in office).', '6/C18'),
     'C20': ('After every tick of a leader the harness compares the time since a majority-completing set of voters was last heard with the fallback '
-            'timeout; SUCCESS for commands submitted while cut off and the hasQuorum flag against ground-truth connections are checked every step. A quarter of the cases change the member set at run time (voters added that never answer, removals, rolled-back removals); the majority is counted over the voters the leader knows.', '6/C20'),
+            'timeout (voters heard during the candidacy count from the start of the leadership, the others from when they really were last heard); SUCCESS for commands submitted while cut off and the hasQuorum flag against ground-truth connections are checked every step. A quarter of the cases change the member set at run time (voters added that never answer, removals, rolled-back removals); the majority is counted over the voters the leader knows.', '6/C20'),
 }
 
 TECH = {
